@@ -38,6 +38,16 @@ pub proof fn verif_vacuity_c10_typed_must_fail(g: GenericPurl<PackageType>, t1: 
         PackageType::finish_rel(g.package_type, g.parts, t1, p1, fr), build_post::<PackageType>(t1, p1, fr, r),
     ensures false
 { }
+pub proof fn verif_vacuity_c08_agree_must_fail<T: FromStr + PurlShape>(s: Seq<char>, gt: GenericPurl<PackageType>, r: Result<GenericPurl<T>, <T as PurlShape>::Error>)
+    where <T as PurlShape>::Error: From<<T as FromStr>::Err>
+    requires plain_shape::<T>(), parse_post::<PackageType>(s, Ok::<GenericPurl<PackageType>, PackageError>(gt)), parse_post::<T>(s, r),
+    ensures false
+{ }
+pub proof fn verif_vacuity_c08_unknown_must_fail(s: Seq<char>, rt: Result<GenericPurl<PackageType>, PackageError>)
+    requires phase_a(s) is Ok, forall|t: PackageType| lower_ascii_seq(phase_a(s)->Ok_0.ty) != #[trigger] type_name(t),
+        parse_post::<PackageType>(s, rt),
+    ensures false
+{ }
 pub proof fn verif_vacuity_c09_typed_must_fail(t0: PackageType, p0: PurlParts, t1: PackageType, p1: PurlParts, fr: Result<(), PackageError>,
                                g: GenericPurl<PackageType>, r2: Result<GenericPurl<PackageType>, PackageError>)
     requires
@@ -78,5 +88,6 @@ impl vstd::std_specs::convert::FromSpecImpl<UnsupportedPackageType> for PackageE
         dict(id='theory.pypi_idem', kind='raw', text=_c.theory_text('pypi_idem.rs')),
         dict(id='theory.c01_typed', kind='raw', text=_c.theory_text('c01_typed.rs')),
         dict(id='theory.c09', kind='raw', text=_c.theory_text('c09.rs')),
+        dict(id='theory.c08', kind='raw', text=_c.theory_text('c08.rs')),
     ],
 )
